@@ -6,6 +6,7 @@ import Driver.Feat
 import Driver.Cmap
 import Driver.Zones
 import Driver.Heap
+import Driver.Assoc
 /-! `grdriver <mode>`: one input line → one output line (DESIGN.md §2 "line protocol") -/
 open Driver
 
@@ -33,5 +34,6 @@ def main (args : List String) : IO UInt32 := do
   | ["cmap"] => loop stdin stdout Cmap.step; return 0
   | ["zones"] => loop stdin stdout Zones.step; return 0
   | ["heap"] => loop stdin stdout Heap.step; return 0
+  | ["assoc"] => loop stdin stdout Assoc.step; return 0
   | ["lz4io"] => loopIO stdin stdout Lz4.stepIO; return 0
   | _ => IO.eprintln "usage: grdriver <mode>"; return 2
